@@ -8,7 +8,7 @@ let sig_of_code (c : int) : ostring = match c with
   | 301 -> "replay-without-possdup" | 302 -> "replay-not-contiguous" | 303 -> "gapfill-malformed" | 304 -> "gapfill-skips-replayable"
   | 305 -> "replayed-admin-or-refused" | 306 -> "replay-body-differs" | 307 -> "replay-no-origsendingtime" | 308 -> "replay-wrong-end"
   | 309 -> "reply-to-empty-range"
-  | 401 -> "gap-request-wrong" | 402 -> "spurious-resend-request" | 403 -> "kept-message-not-delivered" | 404 -> "recovery-not-ended" | 405 -> "kept-message-lost" | 406 -> "timer-changed-recovery-state" | 407 -> "early-message-not-kept-while-recovering" | 408 -> "kept-message-dropped-during-recovery"
+  | 401 -> "gap-request-wrong" | 402 -> "spurious-resend-request" | 403 -> "kept-message-not-delivered" | 404 -> "recovery-not-ended" | 405 -> "kept-message-lost" | 406 -> "timer-changed-recovery-state" | 407 -> "early-message-not-kept-while-recovering" | 408 -> "kept-message-dropped-during-recovery" | 409 -> "logon-gap-request-wrong"
   | 601 -> "callback-past-gate" | 602 -> "wrong-reaction" | 603 -> "reject-shape" | 604 -> "logon-past-gate"
   | 701 -> "disconnect-changed-store" | 702 -> "connect-changed-store" | 703 -> "reset-logon-shape" | 704 -> "seqreset-backwards"
   | 705 -> "reset-without-cause" | 706 -> "reset-option-ineffective" | 707 -> "reset-logon-reply" | 708 -> "reset-logon-not-number-1" | 709 -> "received-reset-ignored" | 710 -> "logout-reset-skipped"
@@ -24,7 +24,7 @@ let check (prop : ostring) cfg events (obs : Sx.t) : bool * ostring =
   let fails : (nat * z) list =
     match prop with
     | "C01" -> c01_check os @ c07_cause_check cfg tr
-    | "C04" -> c04_check cfg tr
+    | "C04" -> c04_check cfg tr @ c04_logon_gap_check cfg tr
     | "C06" -> c06_check cfg tr
     | "C07" -> c07_check cfg tr @ c07_cause_check cfg tr
     | "C08" -> c08_check tr
